@@ -96,6 +96,15 @@ pub fn eval_tree<C: Context<NumericTypes = DefaultNumericTypes>>(t: &Node, c: &C
     lift(guard(|| t.eval_with_context(c)))
 }
 
+thread_local! {
+    static CASE: std::cell::Cell<(u64, u64)> = const { std::cell::Cell::new((1, 0)) };
+}
+
+/// called by the framework before every case: contexts built for the case are a function of this salt
+pub fn begin_case(salt: u64) {
+    CASE.with(|c| c.set((salt | 1, 0)));
+}
+
 /// An empty context with a past: the given names and the usual assignment targets were bound (to a tuple, a boolean, a
 /// string — types the programs rarely assign to them first), then everything was cleared.
 pub fn used_then_cleared(names: &[&str], whole: bool) -> Ctx {
@@ -120,8 +129,13 @@ pub fn used_then_cleared(names: &[&str], whole: bool) -> Ctx {
 /// Builds a real HashMapContext holding exactly what the model holds. Recording functions log to `log`.
 pub fn ctx_from_model(m: &Model, log: &Log) -> Ctx {
     // one time in three the context has a past: names were bound to values of other types and then cleared, which leaves
-    // an empty context like a new one (a function of the model, so that a replay builds the same context)
-    let h = m.vars.iter().fold(m.vars.len() as u64 + 7, |h, (k, _)| h.wrapping_mul(31).wrapping_add(k.len() as u64 + k.bytes().next().unwrap_or(0) as u64));
+    // an empty context like a new one (a function of the case and of the number of contexts built for it so far, so that
+    // a replay builds the same contexts)
+    let h = CASE.with(|c| {
+        let (salt, calls) = c.get();
+        c.set((salt, calls + 1));
+        salt.wrapping_add(calls.wrapping_mul(0x9E37_79B9_7F4A_7C15)) >> 7
+    });
     let mut c = if h % 3 == 0 {
         let names: Vec<&str> = m.vars.keys().map(|k| k.as_str()).collect();
         used_then_cleared(&names, h / 3 % 2 == 0)
